@@ -358,7 +358,10 @@ func GetAttr(v Value, attr Value, args ...Value) (Value, error) {
 			}
 			rargs[k] = rarg
 		}
-		res := retval.Call(rargs)
+		res, err := safeCall(retval, rargs)
+		if err != nil {
+			return nil, fmt.Errorf("getattr: method \"%s\" on %T: %v", describe(attr), v, err)
+		}
 		if len(res) == 0 {
 			return nil, nil
 		}
@@ -393,6 +396,22 @@ func indexOf(attr Value, n int) (int, bool) {
 		return 0, false
 	}
 	return int(f), true
+}
+
+// safeCall calls fn and reports a panic as an error, the way text/template
+// does: a method promoted from an embedded nil pointer or nil interface is part
+// of a struct's method set, and calling it dereferences nil.
+func safeCall(fn reflect.Value, args []reflect.Value) (res []reflect.Value, err error) {
+	defer func() {
+		if r := recover(); r != nil {
+			if e, ok := r.(error); ok {
+				err = e
+			} else {
+				err = fmt.Errorf("%v", r)
+			}
+		}
+	}()
+	return fn.Call(args), nil
 }
 
 // hashable reports whether v can be used as a map key without panicking: its
